@@ -199,10 +199,24 @@ def main():
                 elif act == "Access":
                     o = args[0]
                     e = objs[o]
-                    write = rng.rand() < 0.25 and e["kind"] in ("op",)
+                    # (operators through the basis-managed setter,
+                    # Hamiltonians through the units-and-basis-managed one)
+                    write = rng.rand() < 0.25 and e["kind"] in (
+                        "op", "ham", "sa", "rdm")
                     if write:
-                        d = rng.randn(N, N) + 1j * rng.randn(N, N)
+                        if e["kind"] == "op":
+                            d = rng.randn(N, N) + 1j * rng.randn(N, N)
+                        elif e["kind"] == "rdm":
+                            v = rng.randn(N, N) + 1j * rng.randn(N, N)
+                            d = v.dot(v.conj().T)
+                            d /= numpy.trace(d)
+                        else:
+                            d = herm(N, False)
                         e["obj"].data = d.copy()
+                        # (an operator overwritten inside its own context is
+                        # no longer the diagonal one of that context)
+                        cms[:] = [(c0, o0, f0 and o0 != o)
+                                  for (c0, o0, f0) in cms]
                         e["orig"] = d
                         e["opath"] = list(st["rep"][o])
                         hist.append(["write", o])
